@@ -8,7 +8,7 @@ d=$(mktemp -d /var/tmp/seedcopy.XXXX); vd=$d.verif; mkdir -p $vd; cp known-findi
 rsync -a --exclude .git --exclude _seed /repo/ $d/
 (cd $d && patch -p1 -s --no-backup-if-mismatch < "$patch") || { echo "patch does not apply"; rm -rf $d $vd; exit 3; }
 for p in "$@"; do
-  bin/slogcheck -repo $d -property $p -verif $vd 2>&1 | grep -E "^slogcheck property|\[violated\]|^      |CHECK-BROKEN|VIOLATION" | grep -B1 -A1 -E "violated|BROKEN|VIOLATION" | grep -v "^--" | cut -c1-500
+  ${SLOGCHECK_BIN:-bin/slogcheck} -repo $d -property $p -verif $vd 2>&1 | grep -E "^slogcheck property|\[violated\]|^      |CHECK-BROKEN|VIOLATION" | grep -B1 -A1 -E "violated|BROKEN|VIOLATION" | grep -v "^--" | cut -c1-500
 done
 echo "done"
 rm -rf $d $vd
